@@ -86,50 +86,49 @@ Print Assumptions C17_first_matching_rule.
    recorded class outside the fragment; each is replayed on the implementation by the check
    (lib/props/c17.py CORPUS). *)
 Theorem C17_refuted_nested_ellipsis : exists d u, refuted d u.
-Proof. do 2 eexists. exact refuted_nested_ellipsis. Qed.
+Proof. exact ex_refuted_nested_ellipsis. Qed.
 Print Assumptions C17_refuted_nested_ellipsis.
 
 Theorem C17_refuted_var_twice_under_ellipsis : exists d u, refuted d u.
-Proof. do 2 eexists. exact refuted_var_twice. Qed.
+Proof. exact ex_refuted_var_twice. Qed.
 Print Assumptions C17_refuted_var_twice_under_ellipsis.
 
 (* never terminates (NoFuel in the model stands for the hang of the real loop) *)
 Theorem C17_refuted_var_twice_hang : exists d u, supported d u = false /\
   exists tr, transform_try_new d = Ok tr /\ transform_apply tr u = NoFuel.
-Proof. exists (defn "() ((_ a ...) '((a (a ...)) ...))"), (rd "(m 1 2)").
-  split; [vm_compute; reflexivity|]. eexists. split; vm_compute; reflexivity. Qed.
+Proof. exact ex_refuted_var_twice_hang. Qed.
 Print Assumptions C17_refuted_var_twice_hang.
 
 Theorem C17_refuted_vector_template : exists d u, refuted d u.
-Proof. do 2 eexists. exact refuted_vector_template. Qed.
+Proof. exact ex_refuted_vector_template. Qed.
 Print Assumptions C17_refuted_vector_template.
 
 Theorem C17_refuted_dotted_template : exists d u, refuted d u.
-Proof. do 2 eexists. exact refuted_dotted_template. Qed.
+Proof. exact ex_refuted_dotted_template. Qed.
 Print Assumptions C17_refuted_dotted_template.
 
 Theorem C17_refuted_ellipsis_var_without_ellipsis : exists d u, refuted d u.
-Proof. do 2 eexists. exact refuted_ellipsis_var_without_ellipsis. Qed.
+Proof. exact ex_refuted_ellipsis_var_without_ellipsis. Qed.
 Print Assumptions C17_refuted_ellipsis_var_without_ellipsis.
 
 Theorem C17_refuted_stale_cursor : exists d u, refuted d u.
-Proof. do 2 eexists. exact refuted_stale_cursor. Qed.
+Proof. exact ex_refuted_stale_cursor. Qed.
 Print Assumptions C17_refuted_stale_cursor.
 
 Theorem C17_refuted_dotted_pattern_fallthrough : exists d u, refuted d u.
-Proof. do 2 eexists. exact refuted_dotted_pattern_fallthrough. Qed.
+Proof. exact ex_refuted_dotted_pattern_fallthrough. Qed.
 Print Assumptions C17_refuted_dotted_pattern_fallthrough.
 
 Theorem C17_refuted_dotted_pattern_binding : exists d u, refuted d u.
-Proof. do 2 eexists. exact refuted_dotted_pattern_binding. Qed.
+Proof. exact ex_refuted_dotted_pattern_binding. Qed.
 Print Assumptions C17_refuted_dotted_pattern_binding.
 
 Theorem C17_refuted_ellipsis_tail_zero_items : exists d u, refuted d u.
-Proof. do 2 eexists. exact refuted_ellipsis_tail_zero_items. Qed.
+Proof. exact ex_refuted_ellipsis_tail_zero_items. Qed.
 Print Assumptions C17_refuted_ellipsis_tail_zero_items.
 
 Theorem C17_refuted_vector_pattern_literal : exists d u, refuted d u.
-Proof. do 2 eexists. exact refuted_vector_pattern_literal. Qed.
+Proof. exact ex_refuted_vector_pattern_literal. Qed.
 Print Assumptions C17_refuted_vector_pattern_literal.
 
 (* F15 is fixed: the non-terminating template is rejected at definition time *)
